@@ -35,6 +35,7 @@ def cases(tier, seed):
     trees = [("s:" + k, v) for k, v in c02.structural_trees().items()]
     names = (c02.HOSTILE[:8] + c02.HOSTILE[12:14]) if quick else c02.HOSTILE   # 12, 13: glob and brace names
     trees += [("n:%d" % i, c02.hostile_tree(n)) for i, n in enumerate(names)]
+    trees += [("long:%d" % len(C.b(n)) + ("" if n[0] == "L" else "mb"), c02.hostile_tree(n)) for n in c02.LONG_NAMES]
     idx = 0
     for tname, (roots, gargs, entries) in trees:
         for fmt in ("default", "json"):
